@@ -19,6 +19,7 @@ pub mod c15;
 pub mod c16;
 pub mod c17;
 pub mod c18;
+pub mod c20;
 
 pub struct Entry {
     pub id: &'static str,
@@ -46,6 +47,7 @@ pub fn lookup(id: &str) -> Option<Entry> {
         "C16" => Entry { id: "C16", check: c16::check, replay: c16::replay },
         "C17" => Entry { id: "C17", check: c17::check, replay: c17::replay },
         "C18" => Entry { id: "C18", check: c18::check, replay: c18::replay },
+        "C20" => Entry { id: "C20", check: c20::check, replay: c20::replay },
         _ => return None,
     })
 }
